@@ -101,7 +101,7 @@ fn check_c08(st: &mut Stats, line: &Value, deep: bool) -> Vec<String> {
     let scn = scenario_of(&line["o"]);
     let exp = expected_of(&line["ro"], &line["expect"]);
     // harness encoder == TLA+ encoder (binds enc.rs to the specification)
-    let mine = enc::encode(&enc::abstract_of(&scn), v);
+    let mine = enc::encode(&enc::abstract_of_ordered(&scn, false), v);
     if mine != bytes {
         st.bump("encoder_mismatch", 1);
     }
@@ -137,6 +137,24 @@ fn check_c08(st: &mut Stats, line: &Value, deep: bool) -> Vec<String> {
         if let Some(how) = accepted(&b) {
             d.push(format!("v{v} file followed by {} extra bytes {:?} {how}", s.len(), &s[..s.len().min(8)]));
             break;
+        }
+    }
+    // a header announcing any unsupported version in front of a header-less v1 body
+    if v == 1 {
+        for x in 0..=255u8 {
+            if x == 2 || x == 3 {
+                continue;
+            }
+            for date in [&[][..], &[7u8, 232, 1, 1][..]] {
+                st.evaluations += 1;
+                let mut b = vec![b'H', b'P', b'O', x];
+                b.extend_from_slice(date);
+                b.extend_from_slice(&bytes);
+                if let Some(how) = accepted(&b) {
+                    d.push(format!("v1 body behind a header announcing version {x} {how}"));
+                    break;
+                }
+            }
         }
     }
     // version byte
@@ -399,7 +417,7 @@ pub fn run(args: &Args) {
     });
     let mut st = Stats::default();
     for (i, l) in lines.iter().enumerate() {
-        replay_line(&mut st, &prop, i, l, deep, &mut dump);
+        guard_case(&mut st, &prop, "replay-binary", l, |st| replay_line(st, &prop, i, l, deep, &mut dump));
     }
     finish(st, args.req("out"), args.req("replay-dir"), json!({"lines": lines.len()}));
 }
@@ -407,7 +425,8 @@ pub fn run(args: &Args) {
 pub fn replay_one(v: &Value) -> bool {
     silence_panics();
     let mut st = Stats::default();
-    replay_line(&mut st, v["property"].as_str().unwrap_or("C08"), 0, &v["line"], true, &mut None);
+    let prop = v["property"].as_str().unwrap_or("C08").to_string();
+    guard_case(&mut st, &prop, "replay-binary", &v["line"], |st| replay_line(st, &prop, 0, &v["line"], true, &mut None));
     for x in &st.violations {
         println!("reproduced: {}", x.what);
         if let Some(d) = x.replay["diffs"].as_array() {
